@@ -1,6 +1,10 @@
 package parser
 
-import comb "github.com/moorara/algo/parser/combinator"
+import (
+	"unicode"
+
+	comb "github.com/moorara/algo/parser/combinator"
+)
 
 var (
 	escapedChars = []rune{'\\', '|', '.', '?', '*', '+', '(', ')', '[', ']', '{', '}', '$'}
@@ -136,6 +140,11 @@ func toUnicodeChar(r comb.Result) (comb.Result, bool) {
 		if d, ok := r.Val.(int); ok {
 			c = c<<4 + d
 		}
+	}
+
+	// Eight hex digits can denote a value that is not a Unicode code point (and overflows a rune).
+	if c > unicode.MaxRune {
+		return comb.Result{}, false
 	}
 
 	return comb.Result{
